@@ -33,7 +33,7 @@ partial def loop (h out : IO.FS.Stream) (version : Bytes) : IO Unit := do
     let res : String × Nat := match api with
       | "recv" => let (rc, lines, cs') := recvResponse cs; (s!"rc={rc} lines={if rc == 0 then hexList (lines.map cstr) else "-"}", cs'.length)
       | "status" => let (rc, st, cs') := nodeStatus a cs; (s!"rc={rc} state={match st with | some s => toString s | none => "-1"}", cs'.length)
-      | "nodes" => let (rc, ns, cs') := nodeList cs; (s!"rc={rc} nodes={if rc == 0 then hexList ns else "-"}", cs'.length)
+      | "nodes" => let (rc, ns, cs') := nodeList cs; (s!"rc={rc} nodes={if rc == 0 then hexList ns ++ s!" after=0 second={ns.length}" else "-"}", cs'.length)
       | "connect" => let (rc, cl, cs') := connect cs; (s!"rc={rc} closes={cl}", cs'.length)
       | _ => let (rc, cs') := simpleCmd cs; (s!"rc={rc}", cs'.length)
     let sent := if api == "connect" then (if (recvResponse cs).1 == 0 then str "exprange" ++ crlf else []) else cmdBytes api a
